@@ -1117,7 +1117,9 @@ static bool checkOptions(const FitCase& c, const Model& m, const std::string& si
       }
     }
   // lock_rot2d: "the anisotropy is restricted to a rotation around Z-axis only" (3-D)
-  if (c.opt.lock_rot2d && ndim == 3)
+  // asserted when the frame of reference given by the first direction of the variogram is itself horizontal: the
+  // rotation that is not inferred is deliberately copied from that direction (st_model_auto_strmod_alloc)
+  if (c.opt.lock_rot2d && ndim == 3 && std::fabs(c.dirs[0].codir[2]) < 1e-10)
     for (auto* cv : ranged)
     {
       if (cv->isIsotropic()) continue;
